@@ -213,10 +213,12 @@ def run(ctx):
         if not fu:
             r.bad("from_bytes", "anchor-missing: Data::from_bytes does not call str::from_utf8", fn=f)
         else:
+            from ..flow import table, ret_set
             for res, want in (("Ok", "Text"), ("Err", "Bytes")):
-                s = seed_after_call(f, fu[0], V(res, None))
-                made = {st["rv"]["variant"] for bb, j, st in f.stmts() if bb in s.exec_blocks and st["k"] == "assign"
-                        and st["rv"]["k"] == "agg" and st["rv"].get("adt") == DATA}
+                # the value that is returned (a Data::Bytes built eagerly as the default of unwrap_or and then dropped is not)
+                made = set()
+                for row, sx in table(facts, f, calls={"from_utf8": [V(res, None)]}):
+                    made = {(v[1] if v is not None and v[0] == "v" else None) for v in ret_set(sx)}
                 if made == {want}:
                     r.ok("from_bytes|" + res, "from_utf8 %s ⇒ Data::%s" % (res, want), fn=f)
                 else:
@@ -277,17 +279,21 @@ def run(ctx):
                 r.bad("%s|submatches" % m, "submatches field is `%s`" % show(e)[:60], fn=f)
         sn = facts.fn(P + "::json::SubMatches::new")
         ebs = ExprBuilder(sn)
-        aggs = [st for bb, j, st in sn.stmts() if st["k"] == "assign" and st["rv"]["k"] == "agg" and
+        # every SubMatch literal of the function or of a closure it maps over the matches
+        aggs = [(g_, st) for g_ in facts.with_closures(sn.path) for bb, j, st in g_.stmts() if st["k"] == "assign" and st["rv"]["k"] == "agg" and
                 st["rv"].get("adt") == P + "::jsont::SubMatch"]
-        if len(aggs) < 2:
+        if len(aggs) < 1:
             r.bad("SubMatch", "anchor-missing: SubMatch literals", fn=sn)
-        for i, st in enumerate(aggs):
+        elif len(aggs) == 1:
+            r.ok("SubMatch|shared", "one SubMatch literal serves the one-match and the many-matches form", fn=sn, nontrivial=False)
+        for i, (g_, st) in enumerate(aggs):
             rv = st["rv"]
+            ebs = ExprBuilder(g_)
             em = ebs.operand(rv["ops"][rv["fields"].index("m")])
             es = ebs.operand(rv["ops"][rv["fields"].index("start")])
             ee = ebs.operand(rv["ops"][rv["fields"].index("end")])
-            def mat_locals(e):
-                return {x[1] for x in walk(e) if x.k in ("phi", "local") and sn.local_ty(x[1]) == "grep_matcher::Match"} | \
+            def mat_locals(e, g_=g_):
+                return {x[1] for x in walk(e) if x.k in ("phi", "local", "arg") and g_.local_ty(x[1]).lstrip("&") == "grep_matcher::Match"} | \
                     {id(x) for x in walk(e) if is_call(x, "core::ops::index::Index::index") and False}
             ok = any(is_call(x, "core::ops::index::Index::index") for x in walk(em)) and is_call(strip(es), "grep_matcher::Match::start") \
                 and is_call(strip(ee), "grep_matcher::Match::end")
@@ -529,16 +535,29 @@ def run(ctx):
         f = facts.fn(P + "::standard::StandardImpl::sink")
         eb = ExprBuilder(f)
         SI = P + "::standard::StandardImpl::"
-        fast = [c for c in f.calls() if c.path in (SI + "sink_fast", SI + "sink_fast_multi_line")]
-        ml = [c for c in f.calls() if c.path in (SI + "sink_fast_multi_line", SI + "sink_slow_multi_line")]
-        e_sw = cond_switches(f, lambda e: is_call(e, "[T]::is_empty") and mentions_call(e, P + "::util::Sunk::matches"), eb)
-        m_sw = cond_switches(f, lambda e: is_call(e, SI + "multi_line"), eb)
-        if fast and e_sw and not guarded(f, [c.bb for c in fast], e_sw, True):
-            r.ok("fast", "fast printers only when no match spans are needed", fn=f)
+        # value table: (no match spans, multi_line(), is_context()) ∈ {0,1}³ → the one sink_* routine that runs
+        from ..flow import table
+        names = ("sink_fast", "sink_fast_multi_line", "sink_slow", "sink_slow_multi_line")
+        sites = {n_: f.calls_to(SI + n_) for n_ in names}
+        bad_fast, bad_ml = [], []
+        for row, sx in table(facts, f, calls={"[T]::is_empty": [I(0), I(1)], "StandardImpl::multi_line": [I(0), I(1)],
+                                              "StandardImpl::is_context": [I(0), I(1)], "StandardImpl::write_search_prelude": [V("Ok", None)]}):
+            emp, ml_, ctx_ = row[("call", "[T]::is_empty")][1], row[("call", "StandardImpl::multi_line")][1], row[("call", "StandardImpl::is_context")][1]
+            ran = sorted(n_ for n_, cs_ in sites.items() if any(c.bb in sx.exec_blocks for c in cs_))
+            if not emp and any("fast" in n_ for n_ in ran):
+                bad_fast.append("spans present, multi_line=%d context=%d ⇒ %s" % (ml_, ctx_, ran))
+            if not ml_ and any("multi_line" in n_ for n_ in ran):
+                bad_ml.append("multi_line()=0 ⇒ %s" % ran)
+            if len(ran) != 1:
+                bad_fast.append("empty=%d multi_line=%d context=%d ⇒ %s (exactly one routine expected)" % (emp, ml_, ctx_, ran))
+        if not all(sites.values()):
+            r.bad("fast", "anchor-missing: StandardImpl::sink no longer dispatches to %s" % [n_ for n_ in names if not sites[n_]], fn=f)
+        elif bad_fast:
+            r.bad("fast", "a fast printing path can run while match spans exist (colours/columns/replacements would be lost): %s"
+                  % bad_fast[0], fn=f, construct="fast")
         else:
-            r.bad("fast", "a fast printing path can run while match spans exist (colours/columns/replacements would be lost)", fn=f,
-                  construct="fast")
-        if ml and m_sw and not guarded(f, [c.bb for c in ml], m_sw, True):
+            r.ok("fast", "fast printers only when no match spans are needed (8 rows, one routine each)", fn=f)
+        if bad_ml:
+            r.bad("multi_line", "a multi-line printing path can run for a single-line search: %s" % bad_ml[0], fn=f, construct="multi_line")
+        else:
             r.ok("multi_line", "multi-line printers only under multi_line()", fn=f)
-        else:
-            r.bad("multi_line", "a multi-line printing path can run for a single-line search", fn=f, construct="multi_line")
